@@ -13,7 +13,16 @@ def _param_node(rec, clause):
             f"sys.exit(replay_param_node({name!r}, json.loads({json.dumps(json.dumps(model, default=str))})))\n")
 
 
+def _scope_iter(rec, clause):
+    """the counter-model is an order of a hash set, which CPython fixes per value: search small sets for a reproducer"""
+    return ("import sys, itertools\nfrom cirkit.utils.scope import Scope\n"
+            "for r in (2, 3):\n    for s in itertools.combinations(range(20), r):\n"
+            "        got = list(Scope(s))\n        if got != sorted(s) or set(got) != set(s):\n"
+            "            print('Scope', s, 'iterates as', got); sys.exit(1)\nsys.exit(0)\n")
+
+
 GENERATORS = [
+    (re.compile(r"^C05\.Scope\.__iter__"), _scope_iter),
     (re.compile(r"^C(14|05)\.(sym|rule|kernel)\.(?!TensorParameter|ReferenceParameter|mixing_weight_factory|TorchMatMul|TorchFlatten)"), _param_node),
 ]
 
